@@ -270,7 +270,7 @@ func c10r11(r *R) {
 				return
 			}
 			seen[cn]++
-			recv := describe(refArgs(c.Common())[0])
+			recv := resolveCaptured(describe(refArgs(c.Common())[0]), c.Parent())
 			onPeer := strings.HasSuffix(recv, ".peer")
 			underID := guardedBy(c.Block(), func(g string) bool {
 				return !strings.HasPrefix(g, "!") && strings.Contains(g, ".ID == "+id+")")
